@@ -1032,7 +1032,7 @@ func (e *Engine) checkFrame(st *State, fn *ssa.Function, c *Contract, env *Env) 
 	}
 }
 
-var readOnlyRe = regexp.MustCompile(`^(Min|Max|Mean|StandardDeviation|Median|Write|WriteString|Equal|Hash|Sum|Compare|Contains|Count|Index|HasPrefix|HasSuffix|Marshal|MarshalVT|Size|SizeVT|String|Error|Is|As|Unwrap|Printf|Errorf|Sprintf|Fprintf|Debug|Info|Warn|Put|Get|Delete|Acquire|Renew|Release|Prefix[A-Z]\w*|Send|Join|Split\w*|Trim\w*|ToLower|ToUpper|Len|Verify|Sign|Encode\w*|Itoa|Format\w*|Parse\w*)$`)
+var readOnlyRe = regexp.MustCompile(`^(Min|Max|Mean|StandardDeviation|Median|Write|WriteString|Equal|Hash|Sum|Compare|Contains|Count|Index|HasPrefix|HasSuffix|Marshal|MarshalVT|Size|SizeVT|String|Error|Is|Unwrap|Printf|Errorf|Sprintf|Fprintf|Debug|Info|Warn|Put|Get|Delete|Acquire|Renew|Release|Prefix[A-Z]\w*|Send|Join|Split\w*|Trim\w*|ToLower|ToUpper|Len|Verify|Sign|Encode\w*|Itoa|Format\w*|Parse\w*)$`)
 
 // readOnlyCallee: library functions that by their documented contract do not write through their arguments.
 func readOnlyCallee(name string) bool { return readOnlyRe.MatchString(stripTypeArgs(name)) }
